@@ -36,14 +36,15 @@ func (o c22Op) String() string { return strings.TrimSpace(o.Kind + " " + o.Pod +
 
 type c22Case struct {
 	Ops     []c22Op `json:"threads"`
+	Backend string  `json:"backend,omitempty"` // "" = etcd | "redis"
 	Bound   int     `json:"preemption_bound"`
 	Choices []int   `json:"choices,omitempty"`
 }
 
-func c22Setup(t *testing.T, b *world.Backend) (*world.Snap, string, error) {
+func c22Setup(t *testing.T, b *world.Backend, redis bool) (*world.Snap, string, error) {
 	var err error
-	tr := wexec(t, b, world.InstanceOpts{NoWAL: true}, nil, 5, func(ctx context.Context, inst *world.Instance) {
-		for _, p := range []string{"p", "q"} {
+	tr := wexec(t, b, world.InstanceOpts{NoWAL: true, Redis: redis}, nil, 5, func(ctx context.Context, inst *world.Instance) {
+		for _, p := range []string{"p", "q", "r"} {
 			if _, e := inst.Cal.AddPod(ctx, p, ""); e != nil {
 				err = e
 				return
@@ -54,6 +55,11 @@ func c22Setup(t *testing.T, b *world.Backend) (*world.Snap, string, error) {
 				err = e
 				return
 			}
+		}
+		// pod r has one node, and that node is down (a real node that never reported a heartbeat)
+		if _, e := inst.Cal.AddNode(ctx, world.NodeSpec{Name: "n4", Pod: "r", CPU: 2, Memory: 200}.Options()); e != nil {
+			err = e
+			return
 		}
 		msgs, e := inst.Create(ctx, world.DeploySpec{Pod: "p", Count: 1, Strategy: "AUTO", Memory: 50, Filter: &coretypes.NodeFilter{Podname: "p", Includes: []string{"n2"}}})
 		if e != nil || len(msgs) != 1 || msgs[0].Error != nil {
@@ -66,7 +72,7 @@ func c22Setup(t *testing.T, b *world.Backend) (*world.Snap, string, error) {
 	if err != nil {
 		return nil, "", err
 	}
-	v := b.View(false)
+	v := b.View(redis)
 	wid := ""
 	for id := range v.Workloads {
 		wid = id
@@ -123,19 +129,25 @@ func c22Explore(t *testing.T, c *vcore.Ctx) {
 	if dir == "" {
 		dir = t.TempDir()
 	}
-	c.SetRule("two API calls as concurrent threads over pods p{n1,n2 with one workload on n2}, q{}: pairs drawn from {add-pod, remove-pod, add-node, remove-node, create, remove} on overlapping names; every interleaving of their etcd/engine requests within the preemption bound; oracle when both have returned; non-trivial = schedules with at least one switch between the threads while both were enabled")
+	c.SetRule("two API calls as concurrent threads over pods p{n1,n2 with one workload on n2}, q{}, r{n4, down}: pairs drawn from {add-pod, remove-pod, add-node, remove-node, create, remove} on overlapping names; every interleaving of their etcd/engine requests within the preemption bound; the pod-level scenarios also on the Redis store; oracle when both have returned; non-trivial = schedules with at least one switch between the threads while both were enabled")
 	c.Assume("etcd = memetcd (conformance-checked); both calls run on one core instance (locks are distributed, so this equals two instances sharing the store)")
-	b := world.NewBackend(dir, false)
+	b := world.NewBackend(dir, true)
 	defer b.Close()
-	snap, wid, err := c22Setup(t, b)
-	if err != nil {
-		c.HarnessError("setup: %v", err)
-		return
+	snaps, wids := map[string]*world.Snap{}, map[string]string{}
+	empty := b.Save()
+	for _, be := range []string{"", "redis"} {
+		b.Restore(empty)
+		snap, wid, err := c22Setup(t, b, be == "redis")
+		if err != nil {
+			c.HarnessError("setup (%s): %v", be, err)
+			return
+		}
+		snaps[be], wids[be] = snap, wid
 	}
 	mk := func(cc *c22Case) *schedScenario {
-		sc := &schedScenario{Name: "refs", Snap: snap, Opts: world.InstanceOpts{NoWAL: true}, Horizon: 10 * time.Minute, Quantum: time.Second}
+		sc := &schedScenario{Name: "refs", Snap: snaps[cc.Backend], Opts: world.InstanceOpts{NoWAL: true, Redis: cc.Backend == "redis"}, Horizon: 10 * time.Minute, Quantum: time.Second}
 		for i, op := range cc.Ops {
-			sc.Threads = append(sc.Threads, c22Thread(fmt.Sprintf("T%d", i+1), op, wid))
+			sc.Threads = append(sc.Threads, c22Thread(fmt.Sprintf("T%d", i+1), op, wids[cc.Backend]))
 		}
 		return sc
 	}
@@ -163,11 +175,27 @@ func c22Explore(t *testing.T, c *vcore.Ctx) {
 		{{Kind: "addpod", Pod: "r"}, {Kind: "addnode", Pod: "r", Node: "n3"}},
 		{{Kind: "create", Node: "n1"}, {Kind: "remove"}},
 		{{Kind: "removepod", Pod: "q"}, {Kind: "addpod", Pod: "q"}},
+		// a pod whose only node is down must not be removed
+		{{Kind: "removepod", Pod: "r"}},
+		{{Kind: "removepod", Pod: "r"}, {Kind: "removenode", Node: "n4"}},
+	}
+	type job struct {
+		ops []c22Op
+		be  string
+	}
+	var jobs []job
+	for _, ops := range pairs {
+		jobs = append(jobs, job{ops, ""})
+	}
+	// the Redis store: the pod-level scenarios (workload placement goes through the same cluster code)
+	for _, i := range []int{1, 5, 7, 8, 9} {
+		jobs = append(jobs, job{pairs[i], "redis"})
 	}
 	c.Bound("preemption_bound_completed", bound)
-	c.Bound("scenarios", len(pairs))
-	for _, ops := range pairs {
-		cc := c22Case{Ops: ops, Bound: bound}
+	c.Bound("scenarios", len(jobs))
+	for _, j := range jobs {
+		ops := j.ops
+		cc := c22Case{Ops: ops, Backend: j.be, Bound: bound}
 		if c.Expired() {
 			c.CapHit("budget reached")
 			return
@@ -192,6 +220,9 @@ func c22Check(c *vcore.Ctx, b *world.Backend, cc *c22Case, x *schedRun, choices 
 		names = append(names, op.Kind)
 	}
 	pair := strings.Join(names, "||")
+	if cc.Backend != "" {
+		pair = cc.Backend + "/" + pair
+	}
 	// a violation that needs no preemption at all (the calls run one after the other) is a
 	// different finding from one that needs a particular interleaving
 	npre := 0
@@ -211,7 +242,7 @@ func c22Check(c *vcore.Ctx, b *world.Backend, cc *c22Case, x *schedRun, choices 
 		viol("call-never-returns", "%s", firstLine(x.Stuck))
 		return
 	}
-	v := b.View(false)
+	v := b.View(cc.Backend == "redis")
 	c.Outcome(pair + ":" + c22Results(x, len(cc.Ops)))
 	pods := map[string]bool{}
 	for _, p := range v.Pods {
